@@ -287,7 +287,108 @@ Proof.
     destruct (values_of_bytes (lead ++ weave l)) as [a b]. cbn [fst snd] in *. congruence.
 Qed.
 
+(* ================= the stream shape of the property statement ================= *)
+(* leading whitespace, a noise region, then values each followed by a whitespace run and a noise
+   region (regions may be empty); a bare value is separated from whatever follows by whitespace *)
+Fixpoint region_items (n : noise) : list (sitem * ws) :=
+  match n with [] => [] | (g, w) :: more => (IGarb g, w) :: region_items more end.
+
+Lemma region_weave n l : weave (region_items n ++ l) = noise_bytes n ++ weave l.
+Proof.
+  induction n as [|[g w] n IH]; cbn [region_items app weave noise_bytes item_bytes]; [reflexivity|].
+  rewrite IH, <- !app_assoc. reflexivity.
+Qed.
+
+Lemma region_ok n l : noise_ok n -> weave_ok l -> weave_ok (region_items n ++ l).
+Proof.
+  induction n as [|[g w] n IH]; intros Hn Hl; cbn [region_items app]; [exact Hl|].
+  inversion Hn as [|? ? (Hne & Hg & Hw) Hn']; subst. cbn [fst snd] in *.
+  cbn [weave_ok item_ok needs_sep]. splits; auto. discriminate.
+Qed.
+
+Lemma region_values n l : weave_values (region_items n ++ l) = weave_values l.
+Proof. induction n as [|[g w] n IH]; cbn [region_items app weave_values]; auto. Qed.
+
+Lemma region_count n l :
+  garbage_count (region_items n ++ l) = (noise_count n + garbage_count l)%nat.
+Proof.
+  induction n as [|[g w] n IH]; cbn [region_items app garbage_count noise_count]; [reflexivity|].
+  rewrite IH. lia.
+Qed.
+
+Definition vstream := list (sjson * ws * noise).
+Fixpoint vstream_items (l : vstream) : list (sitem * ws) :=
+  match l with
+  | [] => []
+  | (t, w, n) :: more => (IVal t, w) :: region_items n ++ vstream_items more
+  end.
+Fixpoint vstream_bytes (l : vstream) : list byte :=
+  match l with
+  | [] => []
+  | (t, w, n) :: more => render t ++ w ++ noise_bytes n ++ vstream_bytes more
+  end.
+Fixpoint vstream_ok (l : vstream) : Prop :=
+  match l with
+  | [] => True
+  | (t, w, n) :: more =>
+      wf t /\ ws_ok w /\ noise_ok n /\
+      (bare t = true -> n <> [] \/ more <> [] -> w <> []) /\ vstream_ok more
+  end.
+Fixpoint vstream_noise (l : vstream) : nat :=
+  match l with [] => O | (_, _, n) :: more => (noise_count n + vstream_noise more)%nat end.
+
+Lemma vstream_weave l : weave (vstream_items l) = vstream_bytes l.
+Proof.
+  induction l as [|[[t w] n] l IH]; cbn [vstream_items vstream_bytes weave item_bytes]; [reflexivity|].
+  rewrite region_weave, IH. reflexivity.
+Qed.
+
+Lemma vstream_items_ok l : vstream_ok l -> weave_ok (vstream_items l).
+Proof.
+  induction l as [|[[t w] n] l IH]; cbn [vstream_items vstream_ok]; [auto|].
+  intros (Hwf & Hw & Hn & Hsep & Hl). cbn [weave_ok item_ok needs_sep]. splits; auto.
+  - intros Hb Hne. apply (Hsep Hb).
+    destruct n as [|gw n]; [|left; discriminate]. right. cbn [region_items app] in Hne.
+    destruct l; [|discriminate]. exfalso. apply Hne. reflexivity.
+  - apply region_ok; auto.
+Qed.
+
+Lemma vstream_values l : weave_values (vstream_items l) = map (fun x => fst (fst x)) l.
+Proof.
+  induction l as [|[[t w] n] l IH]; cbn [vstream_items weave_values map fst]; [reflexivity|].
+  rewrite region_values, IH. reflexivity.
+Qed.
+
+Lemma vstream_count l : garbage_count (vstream_items l) = vstream_noise l.
+Proof.
+  induction l as [|[[t w] n] l IH]; cbn [vstream_items garbage_count vstream_noise]; [reflexivity|].
+  rewrite region_count, IH. reflexivity.
+Qed.
+
+Lemma Forall2_map_l {A B C} (f : A -> B) (P : B -> C -> Prop) l vs :
+  Forall2 (fun x v => P (f x) v) l vs -> Forall2 P (map f l) vs.
+Proof. induction 1; cbn [map]; constructor; auto. Qed.
+
+Theorem noise_invisible_regions : forall (lead : ws) (n0 : noise) (l : vstream) (vs : list json),
+  ws_ok lead -> noise_ok n0 -> vstream_ok l ->
+  Forall2 (fun twn v => value_of (fst (fst twn)) = Some v) l vs ->
+  values_of_bytes (lead ++ noise_bytes n0 ++ vstream_bytes l) =
+    (vs, N.of_nat (noise_count n0 + vstream_noise l)).
+Proof.
+  intros lead n0 l vs Hlead Hn0 Hl Hvals.
+  rewrite <- vstream_weave, <- region_weave.
+  destruct (noise_invisible lead (region_items n0 ++ vstream_items l) vs Hlead) as (E1 & E2 & _).
+  - apply region_ok; [assumption|]. apply vstream_items_ok. assumption.
+  - rewrite region_values, vstream_values.
+    apply (Forall2_map_l (fun x : sjson * ws * noise => fst (fst x)) (fun t v => value_of t = Some v)).
+    exact Hvals.
+  - rewrite region_count, vstream_count in E2.
+    destruct (values_of_bytes (lead ++ weave (region_items n0 ++ vstream_items l))) as [a b].
+    cbn [fst snd] in *. congruence.
+Qed.
+
 Print Assumptions garbage_step.
 Print Assumptions noise_run.
 Print Assumptions noise_invisible.
 Print Assumptions noise_removed.
+Print Assumptions noise_invisible_regions.
